@@ -1047,6 +1047,8 @@ def merged(fn, name=None, heap_from=None):
             ctx.local_pc = None
         for exname, rc in raises:
             ctx.raise_conds.append((fname, exname, rc))
+        if not outcomes:
+            raise Abort("no returning local path in %s" % fname)
         if raises:
             # continue only on the non-raising part; the harness inspects ctx.raise_conds
             rc_all = z3.Or(*[rc for _, rc in raises])
